@@ -81,8 +81,8 @@ CLAIMED["C01"] = {
     "note": "NOT covered: arithmetic expressions in conditions/assignments (the evaluator computes in f64; z3 float theory answered unknown at 600 s), contains/startsWith/endsWith/in at engine level (operator level only), Exists/Forall/Accumulate, nesting deeper than the listed shapes. Finite candidate domains for fact values. Trusted: rsym + library model, z3, reference model.",
 }
 CLAIMED["C11"] = {
-    "text": "Bounded symbolic model checking of the REAL BackwardEngine::query (QueryParser, ConclusionIndex, DepthFirstSearch, RuleExecutor, GoalManager cache): one symbolic Horn rule, two queries with the same goal text on one engine with the caller's facts replaced by arbitrary other facts in between, enable_memoization symbolic; the second answer must equal the answer of a fresh engine on the same facts. One open known finding (memoisation keyed by the query text only) is reported as KNOWN-FINDING; the memoisation-off obligation is separate and must hold.",
-    "note": "R = 1 rule, two queries, DFS, max_depth 1 (quick) / 2 (thorough): two rules did not finish within 25 min. Attached RETE engines and longer query sequences outside. Trusted: rsym + library model, z3.",
+    "text": "Bounded symbolic model checking of the REAL BackwardEngine::query (QueryParser, ConclusionIndex, DepthFirstSearch, RuleExecutor, GoalManager cache): one symbolic Horn rule, two queries on one engine (same goal text; in the thorough tier also a DIFFERENT first goal 'a == true') with the caller's facts replaced by arbitrary other facts in between, enable_memoization symbolic; the second answer must equal the answer of a fresh engine on the same facts. One open known finding (memoisation keyed by the query text only) is reported as KNOWN-FINDING; the memoisation-off obligation is separate and must hold.",
+    "note": "R = 1 rule, two queries, DFS, max_depth 1 (quick) / 2 and the different-first-goal run at depth 1 (thorough; that run took 7-10 min, too slow for quick): two rules did not finish within 25 min. Attached RETE engines and longer query sequences outside. Trusted: rsym + library model, z3.",
 }
 NA.pop("C11", None)
 NA["C09"] = "attempted on the real BackwardEngine::query with the rsym engine (checks/c09.py, checks/bwdcore.py): one symbolic rule decides in ~70 s but covers no chain/shared-sub-goal shape; two symbolic rules did not return within 25 min (40 min with symbolic strategy). The smallest meaningful bound (3 rules: two sub-goals proved, parent fails) is out of reach"
